@@ -164,4 +164,18 @@ CookieLifetimeFor(r, f) ==
             (r.ok /\ r.id = r.arg /\ r.nb = i.nb /\ r.na = i.na /\ r.val = i.val)
       /\ r.t > i.nb + 3 * Day => ~r.ok
 CookieLifetime == CookieLifetimeFor(ret, issued)
+
+\* The key-exchange server and the listeners seal every new cookie with the key
+\* "handed out for sealing new cookies" at that instant.  Seen from outside (a
+\* cookie names its key): at the instant t a cookie is issued, the key
+\* k = [nb, na] it names is one Current() may return at t - within its validity
+\* period and generated no more than the renewal interval before t ...
+SealedWithCurrent(t, k) == k.nb <= t /\ t <= k.na /\ t - k.nb <= Day
+\* ... consequently the cookie remains usable for at least two days after it was
+\* issued and never beyond three days after its key was generated
+SealedLifetime(t, k) == k.na - t >= 2 * Day /\ k.na - k.nb <= 3 * Day
+\* (in this module: a cookie sealed with what Current() has just returned)
+SealedByCurrent == ret.op = "cur" =>
+   /\ SealedWithCurrent(ret.t, [nb |-> ret.nb, na |-> ret.na])
+   /\ SealedLifetime(ret.t, [nb |-> ret.nb, na |-> ret.na])
 =============================================================================
